@@ -100,7 +100,7 @@ def run(module, cfg=None, *, workers=1, env=None, simulate=None, depth=None, see
     rc: 0 ok; 12 safety violation; 10 assumption; 11 deadlock; others machinery."""
     cfg = cfg or module
     md = workdir("tlc")
-    cmd = ["java", *(["-XX:+UseSerialGC", "-XX:TieredStopAtLevel=1"] if workers == 1 else ["-XX:+UseParallelGC", "-XX:ParallelGCThreads=%d" % max(2, min(8, workers))]), "-Xmx" + heap, "-Xss32m"]
+    cmd = ["java", *(["-XX:+UseSerialGC", "-XX:TieredStopAtLevel=1"] if workers == 1 else ["-XX:+UseParallelGC", "-XX:ParallelGCThreads=%d" % max(2, min(8, workers))]), "-Xmx" + heap, "-Xss32m", "-Djava.io.tmpdir=" + md]      # (TLC leaves a tlc-* directory per run in the JVM's temp dir)
     if dfs:
         cmd.append("-Dtlc2.tool.queue.IStateQueue=StateDeque")
     cmd += ["-cp", CP, "tlc2.TLC", "-workers", str(workers), "-metadir", md,
